@@ -51,6 +51,11 @@ def dt0_adaptive(
 
     [f0] = vf.vector_field(jet_coords=initial_values, t=t0)
 
+    # Promote all leaves to their common dtype first: unravel() casts every
+    # leaf back to the dtype it has in the example, which would truncate
+    # the Euler predictor y1 for, e.g., an integer-typed leaf.
+    y0_flat, _ = tree.ravel_pytree(y0)
+    y0 = tree.tree_map(lambda s: np.asarray(s, dtype=y0_flat.dtype), y0)
     y0, unravel = tree.ravel_pytree(y0)
     f0, _ = tree.ravel_pytree(f0)
 
